@@ -52,10 +52,12 @@ Dev(s, d)  == [s EXCEPT !.dev = @ \cup {d}]
 (* state objects                                                                                   *)
 (* ----------------------------------------------------------------------------------------------- *)
 NewState(label, fn, args, kw, val, succ) ==
-  [label |-> label, fn |-> fn, args |-> args, kw |-> kw, val |-> val, succ |-> succ]
+  [label |-> label, fn |-> fn, args |-> args, kw |-> kw, val |-> val, succ |-> succ, aw |-> <<>>]
 NoState        == NewState("NONE", 0, <<>>, <<>>, None, FALSE)
 Running(f,a,k) == NewState("RUNNING", f, a, k, None, FALSE)
 Waiting(f, m)  == NewState("WAITING", f, <<>>, <<>>, m, FALSE)
+\* workchains.Waiting: a waiting state that awaits the futures aw (indices into S.awt, in registration order)
+WaitingAw(f, m, aw) == [Waiting(f, m) EXCEPT !.aw = aw]
 Finished(v, b) == NewState("FINISHED", 0, <<>>, <<>>, v, b)
 Excepted(e)    == NewState("EXCEPTED", 0, <<>>, <<>>, e, FALSE)
 Killed(m)      == NewState("KILLED", 0, <<>>, <<>>, m, FALSE)
@@ -208,10 +210,23 @@ OnTerminated(s) ==
 (* ----------------------------------------------------------------------------------------------- *)
 (* StateMachine.transition_to                                                                      *)
 (* ----------------------------------------------------------------------------------------------- *)
+\* workchains.Waiting.enter: add _awaitable_done as done-callback of every awaited future; a future that is
+\* already done schedules the callback at once (asyncio: call_soon)
+RECURSIVE RegisterAll(_, _)
+RegisterAll(s, aw) ==
+  IF aw = <<>> THEN s
+  ELSE LET i == Head(aw) IN
+       RegisterAll(IF s.awt[i].st = "pending" THEN [s EXCEPT !.awt[i].reg = TRUE]
+                   ELSE [s EXCEPT !.sched = Append(@, "aw" \o ToString(i))], Tail(aw))
+\* workchains.Waiting.exit: remove the done-callbacks of the futures still awaited
+Unregister(s) == [s EXCEPT !.awt = [i \in DOMAIN @ |-> IF i \in s.awaiting THEN [@[i] EXCEPT !.reg = FALSE] ELSE @[i]]]
+
 ExitCurrent(s, new) ==                    \* _exit_current_state
   IF new.label \notin Allowed(s.st) THEN Err(s, "RuntimeError")
-  ELSE IF s.closed THEN Ok(s, None)       \* close() dropped the event callbacks
-  ELSE Then(OnExiting(s), LAMBDA t : Hook(t, "cb_exiting"))
+  ELSE LET a == IF s.closed THEN Ok(s, None)       \* close() dropped the event callbacks
+                ELSE Then(OnExiting(s), LAMBDA t : Hook(t, "cb_exiting"))
+       IN IF a.exc # NoExc THEN a
+          ELSE Ok(IF a.s.st = "WAITING" THEN Unregister(a.s) ELSE a.s, None)      \* self._state.do_exit()
 
 EnterNext(s, new) ==                      \* _enter_next_state
   LET last == s.st
@@ -220,7 +235,10 @@ EnterNext(s, new) ==                      \* _enter_next_state
       a == IF s.closed THEN Ok(Dev(s, "D11"), None)
            ELSE Then(OnEntering(s, new), LAMBDA t : Hook(t, "cb_entering"))
   IN IF a.exc # NoExc THEN a ELSE
-     LET s1 == [a.s EXCEPT !.st = new.label, !.cur = new,
+     LET s0 == IF new.label = "WAITING"                                          \* next_state.do_enter()
+               THEN RegisterAll([a.s EXCEPT !.awaiting = {new.aw[i] : i \in 1..Len(new.aw)},
+                                            !.watched = {new.aw[i] : i \in 1..Len(new.aw)}], new.aw) ELSE a.s
+         s1 == [s0 EXCEPT !.st = new.label, !.cur = new,
                            !.wf = IF new.label = "WAITING" THEN [st |-> "pending", val |-> None, cookie |-> 0] ELSE @,
                            !.keep = IF new.label = "WAITING" THEN None ELSE @,
                            !.mon.resumed = IF new.label = "WAITING" THEN FALSE ELSE @,
@@ -362,6 +380,8 @@ Commanded(d, resumeArgs) ==
     [] d.cmd = "unsucc"   -> Finished(d.val, FALSE)
     [] d.cmd = "continue" -> Running(d.next, d.args, IF "F12" \in Fixes THEN d.kw ELSE <<>>)
     [] d.cmd = "wait"     -> Waiting(d.next, d.val)
+    [] d.cmd = "await"    -> IF d.aws = <<>> THEN Running(d.next, <<>>, <<>>)      \* WorkChain._do_step
+                             ELSE WaitingAw(d.next, "Waiting before next step", d.aws)
     [] d.cmd = "kill"     -> Killed(d.val)
     [] d.cmd = "raise"    -> Excepted(d.val)
 
@@ -373,10 +393,13 @@ AfterExec(s, o) ==                        \* the rest of step() once execute ret
                  ELSE LET k  == s.acts[o.cookie]
                           s0 == NewAct(IF k.status = "cancelled" THEN Dev(s, "D4") ELSE s, k.kind, k.text, o.cookie)
                       IN SetIntr(s0, Len(s0.acts))
+            ELSE IF o.kind = "exception" THEN SetIntr(s, 0)        \* except Exception: EXCEPTED, interrupt action dropped
             ELSE s
       gone == "F9" \in Fixes /\ s1.st \in Terminal      \* terminated (fail, callback) while the step was in flight
       s1b == IF gone THEN SetIntr(s1, 0) ELSE s1
-      nx == IF o.kind = "state" /\ ~gone THEN o.next ELSE NoState
+      nx == IF gone THEN NoState
+            ELSE IF o.kind = "state" THEN o.next
+            ELSE IF o.kind = "exception" THEN Excepted(o.exc) ELSE NoState
       r  == IF s1b.intr # 0 THEN RunAction(s1b, s1b.intr, nx) ELSE TransitionTo(s1b, nx)
       s2 == SetIntr([r.s EXCEPT !.stepping = FALSE], 0)         \* finally
   IN IF r.exc # NoExc THEN TaskFailed(s2, r.exc) ELSE Advance([s2 EXCEPT !.task.pc = "top"])
@@ -403,7 +426,11 @@ StepBody(s, fn) ==
                                     THEN {"wrongResumeValue"} ELSE {})
                               \cup (IF s.pausedF # "none" THEN {"stepWhilePaused"} ELSE {})]
       s1 == Note(s0, <<"step", fn, s.cur.args, s.cur.kw, s.pausedF # "none", s.status>>)
-      s2 == IF d.status # None THEN [s1 EXCEPT !.status = d.status] ELSE s1
+      s1b == IF s.awt = <<>> THEN s1                     \* C10: what the step sees: the context, and which awaited items are done
+             ELSE Note(s1, <<"ctx", s.ctx, [i \in 1..Len(s.awt) |-> s.awt[i].st # "pending"]>>)
+      s1c == [s1b EXCEPT !.awt = [i \in DOMAIN @ |-> IF \E j \in 1..Len(d.aws) : d.aws[j] = i      \* the step creates what it will await
+                                                   THEN [@[i] EXCEPT !.made = TRUE] ELSE @[i]]]
+      s2 == IF d.status # None THEN [s1c EXCEPT !.status = d.status] ELSE s1c
   IN Then(EmitAll(s2, d.emits), LAMBDA t : Hook(t, "step"))
 
 StepReturn(s, fn) == [kind |-> "state", next |-> Commanded(Prog(s)[fn], <<>>)]
@@ -433,6 +460,7 @@ Advance(s) ==
                 ELSE IF s.wf.st = "result"
                      THEN AfterExec(s, [kind |-> "state",
                                         next |-> Running(s.cur.fn, IF s.wf.val = "NULL" THEN <<>> ELSE <<s.wf.val>>, <<>>)])
+                ELSE IF s.wf.cookie = 0 THEN AfterExec(s, [kind |-> "exception", exc |-> s.wf.val])
                 ELSE AfterExec([s EXCEPT !.wf = [st |-> "pending", val |-> None, cookie |-> 0]],
                                [kind |-> "interruption", cookie |-> s.wf.cookie])
            [] OTHER -> AfterExec(s, [kind |-> "state", next |-> NoState])   \* terminal state objects: execute() is None
@@ -446,6 +474,7 @@ Advance(s) ==
          IF s.wf.st = "result"
          THEN AfterExec(s, [kind |-> "state",
                             next |-> Running(s.task.wfn, IF s.wf.val = "NULL" THEN <<>> ELSE <<s.wf.val>>, <<>>)])
+         ELSE IF s.wf.cookie = 0 THEN AfterExec(s, [kind |-> "exception", exc |-> s.wf.val])
          ELSE AfterExec([s EXCEPT !.wf = [st |-> "pending", val |-> None, cookie |-> 0]],
                         [kind |-> "interruption", cookie |-> s.wf.cookie])
     [] OTHER -> s
@@ -461,6 +490,8 @@ InitS(pi, pl) ==
    wf |-> [st |-> "pending", val |-> None, cookie |-> 0], keep |-> None,
    fut |-> [st |-> "pending", val |-> None],
    closed |-> FALSE, cleaned |-> 0, outputs |-> <<>>,
+   awt |-> [i \in 1..Len(Progs[pi].awt) |-> [key |-> Progs[pi].awt[i], st |-> "pending", val |-> None, reg |-> FALSE, made |-> FALSE]],
+   awaiting |-> {}, watched |-> {}, ctx |-> <<>>,
    task |-> [pc |-> "top", k |-> 0, fn |-> 0, wfn |-> 0, woken |-> FALSE, err |-> None],
    sched |-> <<>>, occ |-> [h \in PlanHooks |-> 0],
    log |-> <<>>, bad |-> {}, dev |-> {}, snap |-> [has |-> FALSE], restores |-> 0,
@@ -482,6 +513,20 @@ Init == /\ \E pi \in 1..Len(Progs), pl \in 1..Len(Plans) : S = InitS(pi, pl)
 
 Flush(s) == [s EXCEPT !.sched = <<>>]
 
+\* workchains.Waiting._awaitable_done(awaitable), the done-callback of an awaited future
+AwaitableDone(s, i) ==
+  LET a   == s.awt[i]
+      s1  == [s EXCEPT !.awaiting = @ \ {i}]
+      SetWF(t, new) ==                    \* set_result / set_exception on the (current) waiting future
+        IF t.wf.st = "pending" THEN Wake([t EXCEPT !.wf = new], "awaitWF")
+        ELSE Note(Dev(t, "D12"), <<"looperr", "InvalidStateError">>)      \* raised inside the callback: reported to the loop
+  IN IF a.st = "ok"
+     THEN LET at == {j \in 1..Len(s1.ctx) : s1.ctx[j][1] = a.key}            \* self.process.ctx[key] = awaitable.result()
+              s2 == IF at = {} THEN [s1 EXCEPT !.ctx = Append(@, <<a.key, a.val>>)]
+                    ELSE [s1 EXCEPT !.ctx[CHOOSE j \in at : TRUE] = <<a.key, a.val>>]
+          IN IF s2.awaiting = {} THEN SetWF(s2, [st |-> "result", val |-> "NULL", cookie |-> 0]) ELSE s2
+     ELSE SetWF(s1, [st |-> "exc", val |-> a.val, cookie |-> 0])
+
 \* one event-loop callback
 Handle(s, h) ==
   CASE h = "task" -> Advance(s)
@@ -489,6 +534,7 @@ Handle(s, h) ==
     [] h = "cbraise" -> LET c == CallbackExcepted(Note(s, <<"cb", "raise">>), "CB")
                         IN IF c.exc # NoExc THEN Note(c.s, <<"cbtaskfailed", c.exc>>) ELSE c.s
     [] h = "trykill" -> Kill(s, "Killed by future being cancelled").s      \* try_killing on the cancelled future
+    [] OTHER -> AwaitableDone(s, CHOOSE i \in 1..Len(s.awt) : h = "aw" \o ToString(i))
 
 \* The steps as pure functions (process state, ready queue) -> [s, rdy]; the actions below, the trace
 \* specification and the twin construction of ProcessFaults all apply these.
@@ -517,10 +563,21 @@ EnvResume(v)      == Offered("resume") /\ Env(StepResume(S, ready, v))
 EnvFail           == Offered("fail") /\ Env(StepFail(S, ready))
 EnvCancel         == Offered("cancel") /\ S.fut.st = "pending" /\ Env(StepCancel(S, ready))
 EnvCallSoon(kind) == Offered("cb" \o kind) /\ Env(StepCallSoon(S, ready, kind))     \* kind: "ok" | "raise"
+\* the environment completes an awaited future (or child process): oc = <<"ok", v>> | <<"fail", e>>
+StepComplete(s, rdy, i, oc) ==
+  LET s1 == Note([s EXCEPT !.awt[i].st = oc[1], !.awt[i].val = oc[2], !.awt[i].reg = FALSE], <<"complete", i, oc[1], oc[2]>>)
+  IN [s |-> s1, rdy |-> IF s.awt[i].reg THEN Append(rdy, "aw" \o ToString(i)) ELSE rdy]
+EnvComplete(i, oc) == Offered("complete") /\ i \in 1..Len(S.awt) /\ S.awt[i].made /\ S.awt[i].st = "pending"
+                      /\ Env(StepComplete(S, ready, i, oc))
 EnvSave           == Offered("save") /\ ~S.stepping /\ Env([s |-> TakeSnapshot(S), rdy |-> ready])
 EnvRestore        == Offered("restore") /\ S.snap.has /\ Env([s |-> Restore(S), rdy |-> <<"task">>])
 RunHandle         == ready # <<>> /\ LET r == StepRun(S, ready) IN S' = r.s /\ ready' = r.rdy /\ UNCHANGED budget
 
+MaxAwaitables == 3
+OutcomeKinds == {"ok", "fail", "killed"}
+Outcome(i, kind) == CASE kind = "ok" -> <<"ok", "r" \o ToString(i)>>
+                      [] kind = "fail" -> <<"fail", "A" \o ToString(i)>>
+                      [] OTHER -> <<"killed", "KilledError">>          \* an awaited child process that was killed
 KillTexts   == {"k1"}
 PauseTexts  == {"p1"}
 ResumeVals  == {"v1"}
@@ -534,6 +591,7 @@ Next ==
   \/ EnvCancel
   \/ EnvCallSoon("ok") \/ EnvCallSoon("raise")
   \/ EnvSave \/ EnvRestore
+  \/ \E i \in 1..MaxAwaitables, kind \in OutcomeKinds : EnvComplete(i, Outcome(i, kind))
   \/ RunHandle
 
 Spec == Init /\ [][Next]_vars
